@@ -8,7 +8,7 @@ REQUIRED = ["CifModel.C07_serialize_roundtrip", "CifModel.C07_serialize_buffer",
             "CifModel.C07_constructible_roundtrip", "CifModel.C07_store_read", "CifModel.C07_store_read_loop_routes",
             "CifModel.C07_store_read_delivers_cells", "CifModel.C07_stored_read_identical", "CifModel.C07_refused_not_stored", "CifModel.C07_numb_in_list_partial", "CifModel.C07_numb_list_roundtrip",
             "CifModel.C07_parser_route", "CifModel.C07_parser_values_numbFree", "CifModel.C07_numbFree_constructible", "CifModel.Model.Parser.values_numbFree", "CifModel.Model.Parser.storeTrace_wf", "CifModel.Model.Parser.parseT_out", "CifModel.Model.Parser.parse_replay",
-            "CifModel.C07_routes_stored", "CifModel.C07_iter_read_identical", "CifModel.C07_walk_read_identical", "CifModel.C07_walk_block_position", "CifModel.C07_walk_frame_position",
+            "CifModel.C07_routes_stored", "CifModel.C07_iter_read_identical", "CifModel.C07_walk_read_identical", "CifModel.C07_walk_item_event", "CifModel.C07_walk_block_position", "CifModel.C07_walk_frame_position",
             "CifModel.C07_iteration_is_stored", "CifModel.C07_item_loop_handle", "CifModel.C07_number_read_identical",
             "CifModel.C07_get_value_flag", "CifModel.C07_set_value_flag", "CifModel.C07_read_paths_identical", "CifModel.C07_parser_read_paths",
             "CifModel.Store.drain_spec", "CifModel.Store.readLoop_spec", "CifModel.Store.readLoop_cell", "CifModel.Store.walk_delivers_item",
@@ -27,6 +27,11 @@ TRUSTED_BASE = [
     "families contain)",
 ]
 ASSUMPTIONS = [
+    "WHICH value cif_container_get_value delivers for an item with several packets: GET_VALUE_SQL (src/internal/sql.h) has no `order by`; "
+    "the store model's valuesOf returns the rows in ascending row number because SQLite is assumed to serve the query by scanning the "
+    "primary-key index (container_id, name, row_num) of item_value.  C07_get_value_flag's `the value of the packet with the lowest row "
+    "number` rests on that assumption (observed by families storeval — parseloop, additem — and store, not derivable from the sources; "
+    "cif.h promises only `one of the values`).  The CODE (CIF_OK / CIF_AMBIGUOUS_ITEM / CIF_NOSUCH_ITEM) does not depend on it",
     "the double cif_value_get_number computes for column `val` is never a NaN (SQLite would store NULL and the CHECK constraint "
     "would refuse the row); observed for huge / tiny exponents by family storeval",
     "values are smaller than the address space (serialised size < 2^64 bytes) — hypothesis of C07_serialize_buffer / wfValue",
@@ -61,7 +66,10 @@ PARTIAL = [
     "(readLoop of Model/StoreRead = getPackets / nextPacket of Model/PktItr) ends with CIF_FINISHED after one packet per row, in row "
     "order, and the packet of the row stored into answers the stored value for the item; C07_walk_read_identical: Walk.walk with the "
     "all-continue program on the tree the walker reads from the store (wcifOf: all_blocks / all_frames / all_loops / get_names / "
-    "get_packets / next_packet) calls the item handler with the stored value and returns CIF_OK; C07_parser_read_paths: the same for "
+    "get_packets / next_packet) is the full depth-first traversal of that tree and returns CIF_OK, and — POSITIONALLY (restated after review rB) — the loop node walk_loop "
+    "shows for the handle is among the loops of the node of the item's OWN container, has one packet per row, and the packet at the "
+    "position of the row stored into contains (item, stored value): the item callback that receives the value is the one of that "
+    "container, loop and packet (C07_walk_item_event is the old position-free corollary); C07_parser_read_paths: the same for "
     "every store call the parser model records.  NOT proved / hypotheses left: (i) the walk theorem assumes that the CIF has no "
     "packet-less loop (cif_walk stops at one with CIF_EMPTY_LOOP, C14_empty_loop) and takes the position of the item's container in "
     "the walker's tree as a hypothesis (InCont: discharged for data blocks by C07_walk_block_position and for a save frame at any "
@@ -80,7 +88,8 @@ PARTIAL = [
     "cif_value_get_number computes Model/Numb.getNumber is property C10 (families numb / todbl); family storeval additionally compares "
     "the doubles of every top-level number read back (d= field) with the model's, bit for bit.  NaN in column `val`: ASSUMPTIONS",
     "several packets: the flag is pinned — C07_get_value_flag (any Good state: no packet CIF_NOSUCH_ITEM, one packet CIF_OK, two or more "
-    "CIF_AMBIGUOUS_ITEM with the FIRST packet's value) and C07_set_value_flag (after set_value on an existing item: (v, n >= 2) with n "
+    "CIF_AMBIGUOUS_ITEM with the value of the packet of lowest row number — `first` only under the ASSUMPTION on SQLite's scan order of "
+    "the primary-key index: GET_VALUE_SQL has no order by) and C07_set_value_flag (after set_value on an existing item: (v, n >= 2) with n "
     "the number of packets of the item's loop, which the call leaves unchanged: loopRows before = loopRows after, second conjunct); "
     "for the other routes the flag follows from C07_get_value_flag in the state read; family storeval compares the code (f=)",
     "independence of the stored copy from the caller's object: immediate in the model (values are immutable); at the C level "
